@@ -45,7 +45,7 @@ def cprefs(p):
     q.compressionLevel = p["level"]; q.autoFlush = p["autoFlush"]; q.favorDecSpeed = p["favorDec"]
     return q
 
-LIGHT_KINDS = ["period", "runs", "zerorich", "incompressible_tail", "barely", "random", "longmatch", "farcopy", "farcopy"]
+LIGHT_KINDS = ["period", "runs", "zerorich", "incompressible_tail", "barely", "random", "longmatch", "farcopy", "farcopy", "drift", "drift", "drift"]
 HEAVY_KINDS = ["selfdict", "text", "mixed", "twosym"]      # many short far matches: the list-based spec decoder costs O(offset) per match
 DICT_SIZES = [0, 1, 7, 8, 100, 4000, 65535, 65536, 70000, 100000]
 
@@ -65,10 +65,30 @@ def farcopy(rng, n):
                 out.append(out[s + i])
     return bytes(out[:n])
 
-def gen_material(rng, n, dlen, tier="quick"):
+def drift(rng, n, P):
+    """X[g] = X[g-P] except at ~0.5% of the positions: every stretch is found one period back, and a
+    compressor that reads a history buffer the caller has since overwritten emits matches over the
+    changed bytes (see CSession.src_buffer, mode fresh_overwrite)"""
+    out = bytearray(rng.randbytes(min(n, P)))
+    while len(out) < n:
+        out += out[len(out) - P:len(out) - P + min(P, n - len(out))]
+    out = out[:n]
+    for _ in range(n // 200 + 1):
+        if n > P:
+            g = rng.randrange(P, n)
+            out[g] = (out[g] + 1 + rng.randrange(255)) & 0xFF
+            # keep later periods consistent with the change (so that the change itself is compressible later)
+            h = g + P
+            while h < n and rng.random() < 0.7:
+                out[h] = out[g]; h += P
+    return bytes(out)
+
+def gen_material(rng, n, dlen, tier="quick", force_kind=None):
     """dictionary ++ content drawn from one stream so that the content refers to the dictionary
     and to itself up to (and beyond) 64 KB back"""
-    if n + dlen <= 40000 or rng.random() < (0.2 if tier == "thorough" else 0.03):
+    if force_kind:
+        kind = force_kind
+    elif n + dlen <= 40000 or rng.random() < (0.2 if tier == "thorough" else 0.03):
         kind = rng.choice(LIGHT_KINDS + HEAVY_KINDS)
     else:
         kind = rng.choice(LIGHT_KINDS)
@@ -77,6 +97,9 @@ def gen_material(rng, n, dlen, tier="quick"):
         big = (pat * ((n + dlen) // len(pat) + 1))[:n + dlen]
     elif kind == "farcopy":
         big = farcopy(rng, n + dlen)
+    elif kind == "drift":
+        period = rng.choice([100, 1000, 4096, 20000, 65535] if not force_kind else [100, 1000, 4096])
+        return kind, *(lambda b: (b[:dlen], b[dlen:]))(drift(rng, n + dlen, period)), period
     else:
         big = gens.data(rng, kind, n + dlen)
     big = bytearray(big)
@@ -85,7 +108,7 @@ def gen_material(rng, n, dlen, tier="quick"):
         a = rng.randrange(dlen, n + dlen) if n > 0 else dlen
         l = min(n + dlen - a, rng.choice([100, 5000, 65536, 70000]))
         big[a:a + l] = rng.randbytes(l)
-    return kind, bytes(big[:dlen]), bytes(big[dlen:])
+    return kind, bytes(big[:dlen]), bytes(big[dlen:]), None
 
 def split_script(rng, kind, n, bs, indep, autoflush):
     """list of ('u'|'n'|'f', size): compressUpdate / uncompressedUpdate / flush, sizes sum to n"""
@@ -124,6 +147,19 @@ def split_script(rng, kind, n, bs, indep, autoflush):
             ops.append(("u", take(step + rng.randrange(0, 50))))
             if rng.random() < 0.8:
                 ops.append(("f", 0))
+    elif kind == "volatile":
+        # blocks taken directly from a source that does not survive the call: the 64 KB history must have been saved
+        while left > 0 and len(ops) < 60:
+            ops.append(("u", take(rng.choice([3000, 9000, 20000]) + rng.randrange(0, 100)) if autoflush
+                        else take(rng.choice([bs, bs + 100, 2 * bs + 5000, 70000]))))
+            if rng.random() < 0.2:
+                ops.append(("f", 0))
+    elif kind == "indep":
+        # many small blocks of mutually redundant content: each must stand alone (plus the dictionary)
+        while left > 0 and len(ops) < 80:
+            ops.append(("u", take(rng.choice([500, 2000, 6000]) + rng.randrange(0, 50))))
+            if not autoflush or rng.random() < 0.1:
+                ops.append(("f", 0))
     elif kind == "smallsteps":
         step = rng.choice([1, 7, 100, 3000, 20000])
         while left > 0 and len(ops) < 300:
@@ -142,8 +178,34 @@ def split_script(rng, kind, n, bs, indep, autoflush):
         ops = [("u", s) if o == "n" else (o, s) for o, s in ops]
     return ops
 
-SCRIPT_KINDS = ["tmpfull", "kblocks", "flushes", "switch", "zeros", "flushwalk", "smallsteps", "random"]
-SRC_MODES = ["fresh_free", "same_buffer", "slices_stable", "slices_unstable", "fresh_keep_stable"]
+SCRIPT_KINDS = ["tmpfull", "kblocks", "flushes", "switch", "zeros", "flushwalk", "smallsteps", "random", "volatile", "indep"]
+SRC_MODES = ["fresh_free", "fresh_overwrite", "fresh_overwrite", "same_buffer", "slices_stable", "slices_unstable", "fresh_keep_stable"]
+
+def equal_size_input(rng, L):
+    """an input whose LZ4 block (fast, acceleration 1, no history) has exactly the size of the input:
+    the producer must store it uncompressed (the format wants compressed blocks to be smaller)"""
+    for _ in range(200):
+        m = rng.choice([20, 100, 300, 1000, 3000])
+        head = rng.randbytes(m)
+        for k in range(5, 80):
+            data = head + bytes([head[-1]]) * k + rng.randbytes(6)
+            src = Buf(0, data=data); dst = Buf(L.compressBound(len(data)))
+            r = L.compress_default(src.p, dst.p, len(data), dst.n)
+            src.free(); dst.free()
+            if r == len(data):
+                return data
+            if r < len(data):
+                break
+    return None
+
+def gen_frame_equalsize(rng, tier, L):
+    data = equal_size_input(rng, L)
+    if data is None:
+        return None
+    p = gen_prefs(rng, tier, {"level": rng.choice([0, 1]), "bsid": rng.choice([0, 4, 5]), "contentSize": 0})
+    script = [("u", len(data))] + ([("f", 0)] if rng.random() < 0.5 else [])
+    return {"prefs": p, "dk": "n", "dict": b"", "X": data, "script": script, "kind": "equalsize", "data": "equalsize",
+            "srcmode": rng.choice(SRC_MODES), "nullprefs": False, "period": None}
 
 def gen_frame(rng, tier, big=False):
     """one streaming frame: prefs, dictionary kind, op script with data"""
@@ -155,6 +217,15 @@ def gen_frame(rng, tier, big=False):
         p["autoFlush"] = rng.choice([0, 0, 0, 1])
     if kind in ("tmpfull", "flushwalk", "smallsteps"):
         p["autoFlush"] = rng.choice([0, 0, 0, 1])
+    if kind == "indep":
+        p["blockMode"] = 1
+        if not big:
+            p["bsid"] = rng.choice([0, 4]); bs = 65536
+    if kind == "volatile":
+        p["blockMode"] = 0
+        p["autoFlush"] = rng.choice([1, 1, 0])
+        if not big:
+            p["bsid"] = rng.choice([0, 4, 4, 5]); bs = BSIZE[p["bsid"]]
     if big:
         n = rng.choice([3, 5, 9]) * bs // 2 + rng.randrange(0, 1000)
     elif kind in ("kblocks", "tmpfull"):
@@ -164,7 +235,13 @@ def gen_frame(rng, tier, big=False):
     n = min(n, 1100000 if tier != "thorough" else 9000000)      # the extracted model costs ~2 us per byte
     dk = rng.choice(["n", "n", "d", "c"])
     dlen = rng.choice(DICT_SIZES) if dk != "n" else 0
-    dkind, dic, X = gen_material(rng, n, dlen, tier)
+    if kind == "volatile":
+        n = max(n, min(4 * bs, 300000))
+    if kind == "indep":
+        n = rng.choice([10000, 30000, 70000])
+        dk = rng.choice(["n", "d", "c", "c"])
+        dlen = rng.choice(DICT_SIZES) if dk != "n" else 0
+    dkind, dic, X, period = gen_material(rng, n, dlen, tier, "drift" if kind in ("volatile", "indep") else None)
     script = split_script(rng, kind, n, bs, p["blockMode"] == 1, p["autoFlush"])
     total = sum(s for o, s in script)
     X = X[:total]
@@ -177,7 +254,8 @@ def gen_frame(rng, tier, big=False):
         declared = max(declared, 1)
     p["contentSize"] = declared
     return {"prefs": p, "dk": dk, "dict": dic, "X": X, "script": script, "kind": kind, "data": dkind,
-            "srcmode": rng.choice(SRC_MODES), "nullprefs": False}
+            "srcmode": rng.choice(SRC_MODES) if kind != "volatile" else rng.choice(["fresh_overwrite", "fresh_overwrite", "fresh_free"]),
+            "nullprefs": False, "period": period}
 
 # ------------------------------------------------------------------ C side
 class CSession:
@@ -224,8 +302,10 @@ class CSession:
             r = L.F_compressBegin_usingCDict(self.ctx, dst.p, 19, self.cdict, qp)
         res = self._out(r, dst); dst.free()
         return res
-    def src_buffer(self, mode, data, whole, off):
-        """(pointer, stable flag, cleanup)"""
+    def src_buffer(self, mode, data, whole, off, future=None):
+        """(pointer, stable flag, cleanup).  Non-stable sources do not survive the call: fresh_free frees the
+        buffer (ASan sees any later read), fresh_overwrite keeps it mapped but rewrites it with the bytes the
+        input holds one period later (so a stale read yields plausible, wrong matches), same_buffer reuses it."""
         n = len(data)
         if mode in ("slices_stable", "slices_unstable"):
             return whole.p + off, (1 if mode == "slices_stable" else 0), None
@@ -238,16 +318,24 @@ class CSession:
         if mode == "fresh_keep_stable":
             self.keep.append(b)
             return b.p, 1, None
+        if mode == "fresh_overwrite":
+            self.keep.append(b)
+            def overwrite():
+                if future:
+                    b.write(0, future[:n])
+                else:
+                    libc.memset(b.p, 0xDD, n)
+            return b.p, 0, overwrite
         def cleanup():
             libc.memset(b.p, 0xDD, n)
             b.free()
         return b.p, 0, cleanup
-    def update(self, p, data, unc, mode, whole, off, extra_cap):
+    def update(self, p, data, unc, mode, whole, off, extra_cap, future=None):
         L = self.L
         q = cprefs(p)
         cap = L.F_compressBound(len(data), byref(q) if q is not None else None) + extra_cap
         dst = Buf(cap, fill=0xA5)
-        ptr, stable, cleanup = self.src_buffer(mode, data, whole, off)
+        ptr, stable, cleanup = self.src_buffer(mode, data, whole, off, future)
         o = COpts(); o.stableSrc = stable
         f = L.F_uncompressedUpdate if unc else L.F_compressUpdate
         r = f(self.ctx, dst.p, cap, ptr, len(data), byref(o))
@@ -335,7 +423,8 @@ def field(resp, name):
     return None
 
 def run_frame(st, cs, fr, res, tier):
-    """run one streaming frame on C and model.  Returns (F, X, ok, blocks) -- F None if the frame did not complete"""
+    """run one streaming frame on C and model.  Returns (F, X, ok, blocks) -- F None if the frame did not complete.
+    After a model/code disagreement the C session goes on alone, so that the direct oracles still judge the frame."""
     L, orc = st["L"], st["oracle"]
     p = fr["prefs"]
     pp = None if fr.get("nullprefs") else p
@@ -344,15 +433,23 @@ def run_frame(st, cs, fr, res, tier):
     bs = BSIZE[eff["bsid"]]
     outs = []
     blocks = []
+    model = {"on": st.get("model_on", True)}
     def fail(kind, what, **detail):
         res["fails"].append({"status": kind, "what": what, "detail": dict(detail, prefs=pstr(pp), dk=fr["dk"], dictlen=len(fr["dict"]),
                                                                           script=fr["script"][:60], srcmode=fr["srcmode"], kind=fr["kind"])})
+    def corr(what, **detail):
+        fail("corr_fail", what, **detail)
+        model["on"] = False
+        st["model_on"] = False       # the model context is out of step for the rest of this session
     ret, out = cs.begin(pp, fr["dk"], fr["dict"])
-    resp = orc.ask("fc_begin", pstr(pp), fr["dk"], hx(fr["dict"]))
     res["evals"] += 1
-    d = cmp_model(resp, ret, out, L)
-    if d:
-        fail("corr_fail", "compressBegin: " + d)
+    if model["on"]:
+        resp = orc.ask("fc_begin", pstr(pp), fr["dk"], hx(fr["dict"]))
+        d = cmp_model(resp, ret, out, L)
+        if d:
+            corr("compressBegin: " + d)
+    if L.F_isError(ret):
+        fail("prop_fail", "compressBegin fails with %s on preferences within the documented ranges" % L.F_getErrorName(ret).decode())
         return None, None, False, None
     outs.append(out)
     X = fr["X"]
@@ -360,7 +457,6 @@ def run_frame(st, cs, fr, res, tier):
     if whole:
         cs.keep.append(whole)
     off = 0
-    mode = None
     buffered = 0
     okall = True
     script = list(fr["script"]) + [("e", 0)]
@@ -368,60 +464,68 @@ def run_frame(st, cs, fr, res, tier):
         if o in ("u", "n"):
             data = X[off:off + sz]
             extra = (bs + 16) if st.get("carry_mode", "u") != o else 0     # a mode switch flushes the buffered block first
-            ret, out = cs.update(eff if pp is not None else None, data, o == "n", fr["srcmode"], whole, off, extra)
+            P = fr.get("period")
+            future = (X[off + P:off + P + sz] + data[max(0, len(X) - off - P):])[:sz] if P else None
+            ret, out = cs.update(eff if pp is not None else None, data, o == "n", fr["srcmode"], whole, off, extra, future)
             off += sz
-            mode = o
             st["carry_mode"] = o
-            parsed = parse_blocks(out, bcrc, ccrc, False)
+            is_end = False
             cmd = "fc_unc" if o == "n" else "fc_update"
         elif o == "f":
             data = b""
             ret, out = cs.flush(eff if pp is not None else None)
-            parsed = parse_blocks(out, bcrc, ccrc, False)
+            is_end = False
             cmd = "fc_flush"
         else:
             data = b""
             ret, out = cs.flush(eff if pp is not None else None, end=True)
-            parsed = parse_blocks(out, bcrc, ccrc, True) if not L.F_isError(ret) else ([], [])
+            is_end = True
             cmd = "fc_end"
         res["evals"] += 1
         res["stats"]["op_" + cmd] += 1
-        if L.F_isError(ret) and U64 - ret == 11:
+        err = L.F_isError(ret)
+        if err and U64 - ret == 11:
             fail("harness_error", "dstMaxSize_tooSmall with the documented capacity at op %d (%s,%d)" % (opi, o, sz))
             return None, None, False, None
+        parsed = parse_blocks(out, bcrc, ccrc, is_end) if not err else ([], [])
         if parsed is None:
-            fail("corr_fail", "bytes written by call %d (%s,%d) are not a sequence of whole blocks" % (opi, o, sz), out=out[:64].hex())
-            return None, None, False, None
+            corr("bytes written by call %d (%s,%d) are not a sequence of whole blocks" % (opi, o, sz), out=out[:64].hex())
+            parsed = ([], [])
         items, blks = parsed
-        # for an error return the model needs the tape of the flush that precedes the error (End: frameSize_wrong)
-        if cmd == "fc_end" and L.F_isError(ret):
-            # the flushed block is not observable through the return value: let the model store it raw
-            items = ["r"] if buffered > 0 else []
-        args = ([hx(data)] if cmd in ("fc_update", "fc_unc") else []) + items
-        resp = orc.ask(cmd, *args)
-        d = cmp_model(resp, ret, out, L)
-        buffered = int(field(resp, "tmp") or 0)
-        if d:
-            fail("corr_fail", "call %d (%s,%d): %s" % (opi, o, sz, d), resp=resp[:300])
-            return None, None, False, None
-        if not L.F_isError(ret):
-            if field(resp, "badspec") != "-":
-                fail("corr_fail", "block compressor contract blk_ok broken: block(s) %s of call %d do not decode to their content "
-                     "with the history the model attributes to them (hist sizes %s)" % (field(resp, "badspec"), opi, field(resp, "hist")))
-                okall = False
-            elif field(resp, "badstrict") != "-":
-                fail("corr_fail", "block(s) %s of call %d violate the end-of-block conditions (strict_valid) on the model's history" % (field(resp, "badstrict"), opi))
-                okall = False
-            if field(resp, "nblk") != field(resp, "tape"):
-                fail("corr_fail", "model made %s blocks, code made %s (call %d)" % (field(resp, "nblk"), field(resp, "tape"), opi))
-                okall = False
+        if model["on"]:
+            if is_end and err:
+                # the block flushed before the error is not observable through the return value: let the model store it raw
+                items = ["r"] if buffered > 0 else []
+            args = ([hx(data)] if cmd in ("fc_update", "fc_unc") else []) + items
+            resp = orc.ask(cmd, *args)
+            d = cmp_model(resp, ret, out, L)
+            buffered = int(field(resp, "tmp") or 0)
+            if d:
+                corr("call %d (%s,%d): %s" % (opi, o, sz, d), resp=resp[:300])
+            elif not err:
+                if field(resp, "badspec") != "-":
+                    corr("block compressor contract blk_ok broken: block(s) %s of call %d do not decode to their content "
+                         "with the history the model attributes to them (hist sizes %s)" % (field(resp, "badspec"), opi, field(resp, "hist")))
+                    okall = False
+                elif field(resp, "badstrict") != "-":
+                    corr("block(s) %s of call %d violate the end-of-block conditions (strict_valid) on the model's history" % (field(resp, "badstrict"), opi))
+                    okall = False
+                elif field(resp, "nblk") != field(resp, "tape"):
+                    corr("model made %s blocks, code made %s (call %d)" % (field(resp, "nblk"), field(resp, "tape"), opi))
+                    okall = False
         outs.append(out)
         blocks += blks
         for raw, _ in blks:
             res["stats"]["blk_raw" if raw else "blk_comp"] += 1
-        if L.F_isError(ret):
-            res["stats"]["err_" + ERRNAME.get(U64 - ret, str(U64 - ret))] += 1
+        if err:
+            code = U64 - ret
+            res["stats"]["err_" + ERRNAME.get(code, str(code))] += 1
+            declared = eff["contentSize"]
+            if not (is_end and code == 14 and declared and declared != len(X)):
+                fail("prop_fail", "call %d (%s,%d) of a legal session fails with %s" % (opi, o, sz, L.F_getErrorName(ret).decode()))
             return None, X, okall, blocks
+    if eff["contentSize"] and eff["contentSize"] != len(X):
+        fail("prop_fail", "compressEnd succeeds although the declared content size %d differs from the %d bytes given" % (eff["contentSize"], len(X)))
     return b"".join(outs), X, okall, blocks
 
 # ------------------------------------------------------------------ direct oracles
@@ -618,7 +722,7 @@ def new_res():
 
 def finish(res, kind):
     out = []
-    for f in res["fails"][:3]:
+    for f in sorted(res["fails"], key=lambda f: 0 if f["status"] == "prop_fail" else 1)[:4]:
         f["nontrivial"] = True; f["kind"] = kind
         out.append(f)
     out.append({"status": "ok", "evals": res["evals"], "keys": sorted(res["keys"])[:500], "kind": kind,
@@ -639,6 +743,7 @@ def run_session_case(st, case, which):
     kind = case["kind"]
     orc.ask("fc_reset")
     st["carry_mode"] = "u"
+    st["model_on"] = True
     cs = CSession(L)
     try:
         if kind == "session":
@@ -647,6 +752,8 @@ def run_session_case(st, case, which):
                 stray_ops(st, cs, rng, res, None)
             for fi in range(nframes):
                 fr = gen_frame(rng, tier, big=case.get("big", False))
+                if rng.random() < 0.06:
+                    fr = gen_frame_equalsize(rng, tier, L) or fr
                 if case.get("force"):
                     fr["prefs"].update(case["force"])
                 if rng.random() < 0.05:
@@ -684,6 +791,8 @@ def run_session_case(st, case, which):
 def stray_ops(st, cs, rng, res, p):
     """calls outside a frame (context fresh or after compressEnd): cStage handling"""
     L, orc = st["L"], st["oracle"]
+    if not st.get("model_on", True):
+        return
     for _ in range(rng.choice([1, 2, 3])):
         o = rng.choice(["u", "f", "e", "n"])
         if o in ("u", "n"):
@@ -701,6 +810,7 @@ def stray_ops(st, cs, rng, res, p):
         d = cmp_model(resp, ret, out, L)
         if d:
             res["fails"].append({"status": "corr_fail", "what": "call outside a frame (%s): %s" % (o, d), "detail": {"prefs": pstr(p)}})
+            st["model_on"] = False
             return
 
 def oneshot(st, cs, rng, res, which, tier):
@@ -712,7 +822,7 @@ def oneshot(st, cs, rng, res, which, tier):
         rng.choice([0, 1, 65536, 65537, 262144, 262145, 1048576, 1048577, 3000000, 4194304, 4194305, 5000000])
     usecd = (not fresh) and rng.random() < 0.6
     dlen = rng.choice(DICT_SIZES) if usecd else 0
-    dkind, dic, X = gen_material(rng, n, dlen, tier)
+    dkind, dic, X, _ = gen_material(rng, n, dlen, tier)
     if rng.random() < 0.3:
         p["contentSize"] = rng.choice([1, n, 12345])        # auto-corrected by compressFrame
     nullp = rng.random() < 0.1
